@@ -257,7 +257,7 @@ CLAIMED = {
              "C20_constructor_preserves_wf / C20_method_preserves_wf / C20_built_no_panic: the same for the expression constructors "
              "and the ExpBase methods (Model/Ctor.v) and for any nesting of modelled calls whose expression arguments are built likewise.",
         note="Partial: C20_built_no_panic covers the modelled API (Model/Api.v, Model/Ctor.v); package fn (thin wrappers, C18), Float, the JSON "
-             "object builder (C16) and the CASE chain are outside `built` - for them reachable => wfe is "
+             "object builder (C16) are outside `built` - for them reachable => wfe is "
              "checked on generated values only; Go runtime stack exhaustion / allocation failure not modelled.",
         ref="DESIGN.md §6 C20"),
 }
